@@ -461,7 +461,13 @@ def run_case(case, ctx):
 
     def evaluate(ms, x):
         m, sig = ms
-        sig.state = x.copy()
+        # the design is handed over either as a new array or by updating the signal's array in place (both are usual: optimisers
+        # assign, user code often writes `sig.state[:] = x`)
+        if isinstance(sig.state, np.ndarray) and sig.state.shape == np.shape(x) and rng.random() < 0.5:
+            sig.state[:] = x
+            ctx.count("inplace_design_updates")
+        else:
+            sig.state = x.copy()
         m.response()
         y = m.sig_out[0].state
         ctx.count("responses")
